@@ -147,7 +147,7 @@ class Engine:
         self.resolved = 0
         self.sinks = 0
         self.top_sinks = []      # sinks on values of unknown kind carrying roots (reported as undecided)
-        self.funcs = {f.qualname: f for f in repo.all_funcs()}
+        self.funcs = {f.qualname: f for f in repo.all_funcs(include_inlined=True)}
         for q in self.funcs:
             self.summ[q] = Summary()
 
